@@ -77,6 +77,7 @@ def report(prop, mod, tier, seed, res, wall):
             real.append(v)
     if hasattr(mod, 'finalize'):
         mod.finalize(res)
+    res.evaluate_requirements()
     extra = mod.evidence_extra(res) if hasattr(mod, 'evidence_extra') else None
     if known_seen:
         extra = dict(extra or {})
